@@ -40,11 +40,22 @@ Definition index_z {A} (l : list A) (z : Z) : res A :=
 (** * Shapes: what reconstruct sees of the values produced by json.Unmarshal *)
 Inductive shape :=
 | SOther                        (* nil, numbers, strings, bools, []byte that is not sio.Binary, ... *)
-| SBin (ph : option Z)          (* a sio.Binary cell; Unmarshal of its bytes into [placeholder]
-                                   gives [Some num] or an error *)
-| SMapPh (n : Z)                (* map[string]any entry {_placeholder:true, num:f}; n = int(f),
-                                   any int whatever f was (NaN, 1e300, -5, ...) *)
-| SSeq (l : list shape).        (* slice elements / struct fields / map values, walked in turn *)
+| SBin (settable : bool) (ph : option Z)
+                                (* a sio.Binary cell; Unmarshal of its bytes into [placeholder]
+                                   gives [Some num] or an error; [settable]: the cell can be
+                                   written (a custom map setter, rv.CanSet() or original.CanSet();
+                                   false e.g. for a field of a struct held by value in a map) *)
+| SSeq (l : list shape)         (* slice elements / struct fields, walked in turn *)
+| SMap (eiface : bool) (l : list shape)
+                                (* a map of any type; [eiface]: its ELEMENT type is an interface
+                                   type (rv.Type().Elem().Kind() == reflect.Interface); the values
+                                   of its entries in key order *)
+| SPhMap (n : Z) (fallback : shape).
+                                (* a value of kind Map that is placeholder-shaped: string keys,
+                                   exactly the two keys _placeholder (a bool, true) and num (a
+                                   float64); n = int(num), any int whatever the float was (NaN,
+                                   1e300, -5, ...); [fallback] = the shape of that map itself, for
+                                   when it is walked into instead of being replaced *)
 
 Inductive value :=
 | VOther
@@ -68,17 +79,74 @@ Section Placeholders.
     if (n <? 0) || (n >=? Z.of_nat (length buffers) - 1) then Err
     else index_z buffers (n + 1).                 (* n + 1 <= len - 1: no wrap-around *)
 
+  (** reflect.Value.SetMapIndex(key, reflect.ValueOf(buf)) on a map whose element type is /
+      is not an interface type: a []byte is not assignable to a map, struct, string ... element
+      and reflect panics.  (Element types []byte / Binary would accept it too; the guard below
+      never lets them get here, so the approximation only makes the model stricter.) *)
+  Definition set_map_index_bytes (eiface : bool) (b : bytes) : res value :=
+    if eiface then Ok (VBin b) else Panic.
+
   Fixpoint recon_value (s : shape) : res value :=
     match s with
     | SOther => Ok VOther
-    | SBin None => Err                                   (* r.json.Unmarshal(pBuf, &p) failed *)
-    | SBin (Some n) => rbind (pick n) (fun b => Ok (VBin b))
-    | SMapPh n => rbind (pick n) (fun b => Ok (VBin b))
+    | SBin _ None => Err                                 (* r.json.Unmarshal(pBuf, &p) failed *)
+    | SBin st (Some n) =>
+      rbind (pick n) (fun b => if st then Ok (VBin b) else Err)   (* ValueError: non-settable value *)
     | SSeq l =>
       rbind ((fix go (l : list shape) : res (list value) :=
                 match l with
                 | [] => Ok []
                 | x :: l' => rbind (recon_value x) (fun v => rbind (go l') (fun vs => Ok (v :: vs)))
+                end) l)
+            (fun vs => Ok (VSeq vs))
+    | SPhMap _ fb => recon_value fb        (* not a map entry: reconstructValue walks into the map *)
+    | SMap eiface l =>
+      (* reconstructMap: for each entry ... *)
+      rbind ((fix go (l : list shape) : res (list value) :=
+                match l with
+                | [] => Ok []
+                | x :: l' =>
+                  rbind (match x with
+                         | SPhMap n fb =>
+                           (* if rv.Type().Elem().Kind() == reflect.Interface && <placeholder-shaped> *)
+                           if eiface then rbind (pick n) (set_map_index_bytes eiface)
+                           else recon_value fb           (* err := r.reconstructValue(mv) *)
+                         | _ => recon_value x
+                         end)
+                        (fun v => rbind (go l') (fun vs => Ok (v :: vs)))
+                end) l)
+            (fun vs => Ok (VSeq vs))
+    end.
+
+  (** The same walk with the guard reading the element type of the placeholder-shaped map itself
+      instead of that of the map it sits in (what the check must NOT be): only used to show that
+      the guard is what keeps SetMapIndex from panicking. *)
+  Fixpoint recon_value_inner_guard (s : shape) : res value :=
+    match s with
+    | SOther => Ok VOther
+    | SBin _ None => Err
+    | SBin st (Some n) => rbind (pick n) (fun b => if st then Ok (VBin b) else Err)
+    | SSeq l =>
+      rbind ((fix go (l : list shape) : res (list value) :=
+                match l with
+                | [] => Ok []
+                | x :: l' => rbind (recon_value_inner_guard x) (fun v => rbind (go l') (fun vs => Ok (v :: vs)))
+                end) l)
+            (fun vs => Ok (VSeq vs))
+    | SPhMap _ fb => recon_value_inner_guard fb
+    | SMap eiface l =>
+      rbind ((fix go (l : list shape) : res (list value) :=
+                match l with
+                | [] => Ok []
+                | x :: l' =>
+                  rbind (match x with
+                         | SPhMap n fb =>
+                           if match fb with SMap i _ => i | _ => false end
+                           then rbind (pick n) (set_map_index_bytes eiface)
+                           else recon_value_inner_guard fb
+                         | _ => recon_value_inner_guard x
+                         end)
+                        (fun v => rbind (go l') (fun vs => Ok (v :: vs)))
                 end) l)
             (fun vs => Ok (VSeq vs))
     end.
